@@ -563,4 +563,10 @@ def run(repo: Repo, rep: Report, tier: str) -> None:
     from .c09 import zero_alignment_rule
 
     zero_alignment_rule(repo, rep, "C03.R19")
+    from .c08 import generated_globals_rule
+    from .c12 import delegation_rule
+
+    generated_globals_rule(repo, rep, "C03.R20")
+    delegation_rule(repo, rep, "C03.R21")
+
 
